@@ -2,6 +2,7 @@ import JunoModel.C01.ProofsSpec
 import JunoModel.C01.ProofsState
 import JunoModel.C01.ModelLegacy
 import JunoModel.C01.ProofsLazy
+import JunoModel.C01.ModelStore
 /-!
 C01 — property theorems (statements only; helper lemmas are in `Proofs*.lean`).
 Every theorem in this module is an obligation listed in evidence/C01.json with its axioms.
@@ -280,6 +281,63 @@ set_option maxRecDepth 8000 in
 /-- non-vacuity of `state_commitment_spec`: a deploy + declare + storage block is accepted -/
 example : (State.run true [⟨[(slot7, .felt 9)], [], [(slot7, .felt 5)], [], [(slot7, .felt 1)],
     [(slot7, [(addr1, .felt 3)]), (addr1, [(slot7, .felt 4)])]⟩] State.St.empty).isSome = true := by decide
+
+/-! ## Dropped updates
+
+An update whose batch is never written (`stateBackend.Simulate`: `NewBatch` + `defer Close`; a `Store`
+/ `Finalise` that fails; a crash before `batch.Write`) must leave no trace: the root is a function of the
+ACCEPTED updates only. In the models the database is a value that only an applied node set changes;
+the harness checks the same on the real code (full key/value dump of the database before and after every
+dropped update, through `State.Update` on a closed batch, `Blockchain.Simulate` and a failing root check). -/
+
+/-- State layer: interleaving any dropped updates changes nothing — the resulting state (records, tries,
+hence every later root) is the one of the accepted updates alone. -/
+theorem state_dropped_updates_identity (purge : Bool) (ops : List State.DOp) (s : State.St) :
+    State.runD purge ops s = State.run purge (State.accepted ops) s := by
+  induction ops generalizing s with
+  | nil => rfl
+  | cons op rest ih =>
+    cases op with
+    | accept d =>
+      simp only [State.runD, State.accepted, State.run]
+      cases State.update purge s d with
+      | none => rfl
+      | some s' => exact ih s'
+    | dropped d => simpa [State.runD, State.accepted] using ih s
+
+theorem store_update_keeps_disk {t t' : Trie2S.T} {key : Path} {v : HTerm}
+    (h : Trie2S.update t key v = some t') :
+    t'.disk = t.disk ∧ t'.height = t.height ∧ t'.kind = t.kind ∧ t'.leafDeleteAbs = t.leafDeleteAbs := by
+  unfold Trie2S.update at h
+  simp only [Option.map_eq_some_iff] at h
+  obtain ⟨x, _, rfl⟩ := h
+  exact ⟨rfl, rfl, rfl, rfl⟩
+
+/-- Trie / node-database layer: whatever is inserted, deleted and hashed on a trie2 trie, and whatever
+node set its `Commit()` returns, if that node set is not applied (`applySet` is the only writer of the
+database) then reopening yields exactly the trie that reopening before those operations yields — an
+uncommitted node set never changes what later operations and commits read. -/
+theorem store_uncommitted_changes_identity (t : Trie2S.T) (kvs : List (Path × HTerm)) (t' : Trie2S.T)
+    (h : kvs.foldlM (fun t (kv : Path × HTerm) => Trie2S.update t kv.1 kv.2) t = some t') :
+    Trie2S.discardReopen (Trie2S.hash t').2 = Trie2S.discardReopen t := by
+  have key : t'.disk = t.disk ∧ t'.height = t.height ∧ t'.kind = t.kind ∧ t'.leafDeleteAbs = t.leafDeleteAbs := by
+    induction kvs generalizing t with
+    | nil => simp [List.foldlM] at h; subst h; exact ⟨rfl, rfl, rfl, rfl⟩
+    | cons kv rest ih =>
+      simp only [List.foldlM_cons, bind, Option.bind] at h
+      cases h1 : Trie2S.update t kv.1 kv.2 with
+      | none => simp [h1] at h
+      | some t1 =>
+        simp only [h1] at h
+        obtain ⟨a, b, c, d⟩ := ih t1 h
+        obtain ⟨a', b', c', d'⟩ := store_update_keeps_disk h1
+        exact ⟨a.trans a', b.trans b', c.trans c', d.trans d'⟩
+  obtain ⟨a, b, c, d⟩ := key
+  simp [Trie2S.discardReopen, Trie2S.hash, a, b, c, d]
+
+/-- non-vacuity: a dropped update that deploys and writes storage leaves the state as it was -/
+example : State.runD true [.dropped ⟨[], [], [(slot7, .felt 5)], [], [], [(slot7, [(addr1, .felt 3)])]⟩] State.St.empty
+    = some State.St.empty := rfl
 
 /-! ## The legacy trie (`core/trie`)
 
